@@ -97,30 +97,6 @@ def make_las(chans, n, x0, step, unit='F'):
     return '\n'.join(lines) + '\n'
 
 
-class LasHolder:
-    """The frame-holder API Plot.py calls (names of the LIS LogPass) on top of LASRead — what a minimal repair of
-    LASRead would provide (finding F-C19-LAS).  Used only when LASRead itself lacks these names."""
-    def __init__(self, las): self._las = las
-    def __getattr__(self, k): return getattr(self._las, k)
-    @staticmethod
-    def _s(m): return m.pStr(strip=True) if hasattr(m, 'pStr') else m
-    def has_output_mnemonic(self, m): return self._las.has_output_mnemonic(self._s(m))
-    def hasOutpMnem(self, m): return self._las.has_output_mnemonic(self._s(m))
-    @property
-    def nullValue(self): return self._las.null_value
-    @property
-    def xAxisUnits(self): return self._las.x_axis_units
-    def curveUnitsAsStr(self, m): return self._las.curve_units_as_str(self._s(m))
-    def genOutpPoints(self, m):
-        import numpy as np
-        i = self._las._find_curve_or_alt_curve(self._s(m))
-        fa = self._las.frame_array
-        xs = fa.x_axis.array; ch = fa.channels[i].array
-        for f in range(len(xs)):
-            v = ch[f][0]
-            yield float(xs[f][0]), (self._las.null_value if v is np.ma.masked else float(v))
-
-
 # ---------------------------------------------------------------------------------------------- FILM / PRES tables
 
 def table_bytes(name, rows):
@@ -213,8 +189,8 @@ def run_case(spec, scratch):
         tb = traceback.extract_tb(e.__traceback__)
         where = ' <- '.join(f'{os.path.basename(f.filename)}:{f.lineno}' for f in tb[-3:])
         finding = None
-        if isinstance(e, (OverflowError, ValueError)) and any('PRESCfg.py' in f.filename or 'Plot.py' in f.filename for f in tb[-2:]) \
-                and spec.get('overflow_class'):
+        if isinstance(e, OverflowError) and tb[-1].name == '_retInterpolateWrapPoints' and spec.get('overflow_class') \
+                and 'too large to convert to float' in str(e):
             finding = 'F-C19-OVERFLOW'
         fails.append((f'{type(e).__name__}: {str(e)[:200]} at {where}', finding))
         return {'fails': fails, 'stats': stats, 'nontriv': None}
@@ -295,23 +271,15 @@ def _run_case(spec, scratch, fails, stats, bump):
         from TotalDepth.LAS.core import LASRead
         las = LASRead.LASRead(io.StringIO(make_las(chans, n, spec['x0'], step)))
         holder = las
-        direct = None
+        # the REAL path: Plot.plotLogPassLAS on the LASRead object; LAS input must produce a plot
         try:
-            direct = p.plotLogPassLAS(las, las.x_axis_start, las.x_axis_stop, film_id, out_path, title='C19 <generated> & "quoted"')
+            ret = p.plotLogPassLAS(las, las.x_axis_start, las.x_axis_stop, film_id, out_path, title='C19 <generated> & "quoted"')
         except AttributeError as e:
-            fails.append((f'LAS input produces no plot: plotLogPassLAS raises AttributeError: {e}', 'F-C19-LAS'))
-        else:
-            if direct == (None, None):
-                fails.append(('LAS input produces no plot: plotLogPassLAS returned (None, None) for a LAS file holding curves of this format', 'F-C19-LAS'))
-        if not hasattr(las, 'genOutpPoints'):
-            holder = LasHolder(las)
-        if direct is None or direct == (None, None):
-            bump('las_via_adapter')
-            if os.path.exists(out_path):
-                os.remove(out_path)
-            ret = p.plotLogPassLAS(holder, las.x_axis_start, las.x_axis_stop, film_id, out_path, title='C19 <generated> & "quoted"')
-        else:
-            ret = direct
+            fails.append((f'LAS input produces no plot: plotLogPassLAS raises AttributeError: {e}', None))
+            return {'fails': fails, 'stats': stats, 'nontriv': None}
+        if ret == (None, None):
+            fails.append(('LAS input produces no plot: plotLogPassLAS returned (None, None) for a LAS file holding curves of this format', None))
+            return {'fails': fails, 'stats': stats, 'nontriv': None}
         xa, xb = las.x_axis_start.value, las.x_axis_stop.value
         x_in = lambda x: x * 12.0
     if ret == (None, None) or ret is None:
@@ -430,7 +398,8 @@ def _run_case(spec, scratch, fails, stats, bump):
                         at_frame[k].add(round(x, 1))
                     if not present[k]:
                         if on_edge:
-                            fails.append((f'interpolated wrap point ({x},{y}) of output {oname} at the depth of an absent frame', 'F-C19-GAP'))
+                            fails.append((f'interpolated wrap point ({x},{y}) of output {oname} at the depth of an absent frame '
+                                          f'(wrap interpolation drawn across absent values)', None))
                         else:
                             fails.append((f'point ({x},{y}) of output {oname} at the depth of frame {k} whose value is absent', None))
                     continue
@@ -445,7 +414,7 @@ def _run_case(spec, scratch, fails, stats, bump):
                         fails.append((f'point ({x},{y}) of output {oname} between two frames but not on a track edge', None))
                     continue
                 fails.append((f'{"interpolated wrap point" if on_edge else "point"} ({x},{y}) of output {oname} inside a run of absent values '
-                              f'(frames {lo},{hi})', 'F-C19-GAP' if on_edge else None))
+                              f'(frames {lo},{hi})', None))
         for k, (st, c) in enumerate(zip(at_frame, cap)):
             cnt = len(st)
             if cnt > c:
@@ -563,8 +532,7 @@ def run_svg(ctx):
         record(ctx, s, r)
     ctx.sample({'op': 'svg', 'spec': {k: (v if not isinstance(v, dict) else 'generated FILM/PRES') for k, v in specs[0].items()},
                 'result': {'failures': len(results[0]['fails']), 'stats': results[0]['stats']}})
-    ctx.note(f'svg: {len(specs)} plot calls; formats {len(_formats())}; '
-             f'LAS plotted through the harness adapter in {ctx.stats.get("las_via_adapter", 0)} case(s) (finding F-C19-LAS)')
+    ctx.note(f'svg: {len(specs)} plot calls; formats {len(_formats())}; LAS plotted through Plot.plotLogPassLAS(LASRead(...)) directly')
 
 
 def replay_svg(ctx, case):
